@@ -1448,7 +1448,9 @@ private:
                 val = binary::big_to_native<uint64_t>(buf, sizeof(buf));
                 break;
             }
-            default:
+            default: // 28..30 are reserved (RFC 8949 3.), 31 has no argument
+                ec = cbor_errc::unknown_type;
+                more_ = false;
                 break;
         }
         return val;
@@ -1530,9 +1532,20 @@ private:
                                 return val;
                             }
                             auto x = binary::big_to_native<uint64_t>(buf, sizeof(buf));
+                            if (x > static_cast<uint64_t>((std::numeric_limits<int64_t>::max)()))
+                            {
+                                // -1 - x is not representable as int64_t
+                                ec = cbor_errc::number_too_large;
+                                more_ = false;
+                                return val;
+                            }
                             val = static_cast<int64_t>(-1)- static_cast<int64_t>(x);
                             break;
                         }
+                    default: // 28..30 are reserved (RFC 8949 3.), 31 has no argument
+                        ec = cbor_errc::unknown_type;
+                        more_ = false;
+                        return val;
                 }
                 break;
 
